@@ -53,6 +53,15 @@ class AbstractContainer(abstract.GeomdlBase):
         self._vis_component = None  # visualization component
         self._cache['evalpts'] = []
 
+    def __deepcopy__(self, memo):
+        # The parent method does not copy the cache; re-create the cache keys
+        result = super(AbstractContainer, self).__deepcopy__(memo)
+        result.init_cache()
+        return result
+
+    def init_cache(self):
+        self._cache['evalpts'] = []
+
     def __iter__(self):
         self._iter_index = 0
         return self
@@ -710,6 +719,11 @@ class SurfaceContainer(AbstractContainer):
             f_offset += len(f)
         self._cache['vertices'] = verts
         self._cache['faces'] = faces
+
+    def init_cache(self):
+        super(SurfaceContainer, self).init_cache()
+        self._cache['vertices'] = []
+        self._cache['faces'] = []
 
     def reset(self):
         """ Resets the cache. """
